@@ -326,7 +326,7 @@ func runC08(c *Ctx) {
 
 	// locate the selects of Read
 	var preSel, waitSel *ssa.Select
-	for _, cm := range commsOf(r.Read) {
+	for _, cm := range commsOfU(r.Read) {
 		if cm.Sel == nil {
 			continue
 		}
@@ -334,7 +334,8 @@ func runC08(c *Ctx) {
 			waitSel = cm.Sel
 		}
 	}
-	for _, cm := range commsOf(r.Read) {
+	readPaths, readPathsOK := enumIterPathsU(r.Read, 50000)
+	for _, cm := range commsOfU(r.Read) {
 		if cm.Sel != nil && cm.Sel != waitSel && cm.Dir == types.RecvOnly && chanRole(cm.Chan) == doneRole && !cm.Sel.Blocking {
 			preSel = cm.Sel
 		}
@@ -373,26 +374,52 @@ func runC08(c *Ctx) {
 	if waitSel == nil {
 		o.Undecide("blocking select receiving from %s not found in Read", r.notify)
 	} else {
-		cases, _ := caseBlocks(waitSel)
 		found := false
-		for i, st := range waitSel.States {
-			if st.Dir == types.RecvOnly && chanRole(st.Chan) == notifyRole {
-				blk := cases[i]
-				if blk == nil {
-					// last case of a blocking select falls to the else branch of the previous test
-					blk = lastCaseBlock(waitSel)
+		goodTest := func(in ssa.Instruction) bool { return isEmptyTest(in) && la.holdsOwner(in, r.T, true) }
+		// scan: the first re-test or return after position i of a path (0 = re-test, 1 = return, 2 = neither)
+		scan := func(pth *upath, i int) (int, ssa.Instruction) {
+			for _, in := range pth.Instrs[i:] {
+				if goodTest(in) {
+					return 0, in
 				}
-				if blk == nil {
-					o.Undecide("cannot locate the case block of the wake-up receive")
+				if _, ok := in.(*ssa.Return); ok && in.Parent() == r.Read {
+					return 1, in
+				}
+			}
+			return 2, nil
+		}
+		if !readPathsOK {
+			o.Undecide("the paths of Read could not be enumerated")
+		}
+		for pi := range readPaths {
+			pth := &readPaths[pi]
+			for i, in := range pth.Instrs {
+				sel, ok := in.(*ssa.Select)
+				if !ok {
 					continue
 				}
+				k := selCaseOnPath(pth, sel)
+				if k < 0 || k >= len(sel.States) || sel.States[k].Dir != types.RecvOnly || chanRole(sel.States[k].Chan) != notifyRole {
+					continue
+				}
+				if !found {
+					o.Site(sel.Pos(), "wake-up case #%d of the blocking select", k)
+				}
 				found = true
-				o.Site(waitSel.Pos(), "wake-up case -> block %d", blk.Index)
-				ok, bad := mustPassU(blockStart(blk), isReturn, func(in ssa.Instruction) bool {
-					return isEmptyTest(in) && la.holdsOwner(in, r.T, true)
-				})
-				if !ok {
-					o.Fail(bad.Pos(), "after a wake-up Read can return without re-testing head/tail under the lock")
+				res, at := scan(pth, i+1)
+				if res == 1 {
+					o.Fail(at.Pos(), "after a wake-up Read can return without re-testing head/tail under the lock")
+				}
+				if res == 2 && pth.Loop {
+					// the path goes round the loop: every continuation from the loop head must re-test before returning
+					for qi := range readPaths {
+						q := &readPaths[qi]
+						if j := q.indexOf(pth.LoopTo.Instrs[0]); j >= 0 {
+							if res2, at2 := scan(q, j); res2 == 1 {
+								o.Fail(at2.Pos(), "after a wake-up Read can return without re-testing head/tail under the lock")
+							}
+						}
+					}
 				}
 			}
 		}
@@ -564,25 +591,43 @@ func runC08(c *Ctx) {
 		o.Fail(r.Read.Pos(), "no non-blocking test of %s.Done() found in Read", r.readDeadline)
 	} else {
 		o.Site(preSel.Pos(), "non-blocking test of Done()")
-		locks := findU(r.Read, func(in ssa.Instruction) bool { return r.isLockCall(in, "lock") })
-		for _, l := range locks {
-			if !domU(preSel, l) {
-				o.Fail(l.Pos(), "the buffer is locked on a path that has not tested the deadline first")
-			}
-		}
-		cs, _ := caseBlocks(preSel)
-		if blk := cs[0]; blk != nil {
-			if ok, bad := mustPassU(blockStart(blk), isExit, func(in ssa.Instruction) bool { return isErrorReturn(in) }); !ok {
-				_ = bad
-			}
-			good := false
-			for _, in := range blk.Instrs {
-				if isErrorReturn(in) {
-					good = true
+		failed := map[ssa.Instruction]bool{}
+		for pi := range readPaths {
+			pth := &readPaths[pi]
+			tested := false
+			var doneAt ssa.Instruction
+			for _, in := range pth.Instrs {
+				if sel, ok := in.(*ssa.Select); ok {
+					k := selCaseOnPath(pth, sel)
+					for i, st := range sel.States {
+						if st.Dir == types.RecvOnly && chanRole(st.Chan) == doneRole {
+							if !sel.Blocking {
+								tested = true
+							}
+							if i == k {
+								doneAt = in
+							}
+						}
+					}
+				}
+				if r.isLockCall(in, "lock") && !tested && !failed[in] {
+					failed[in] = true
+					o.Fail(in.Pos(), "the buffer is locked on a path that has not tested the deadline first")
 				}
 			}
-			if !good {
-				o.Fail(preSel.Pos(), "the expired-deadline branch does not return an error")
+			if doneAt == nil || failed[doneAt] {
+				continue
+			}
+			ret, isRet := pth.last().(*ssa.Return)
+			okErr := false
+			if isRet {
+				if e := errorOperand(ret); e != nil && !isNilConst(pth.value(e)) {
+					okErr = true
+				}
+			}
+			if !okErr {
+				failed[doneAt] = true
+				o.Fail(doneAt.Pos(), "the expired-deadline branch does not return an error")
 			}
 		}
 	}
@@ -592,18 +637,6 @@ func runC08(c *Ctx) {
 			if st.Dir == types.RecvOnly && chanRole(st.Chan) == doneRole {
 				hasDone = true
 				o.Site(waitSel.Pos(), "blocking select has a Done() case (#%d)", i)
-				cs, _ := caseBlocks(waitSel)
-				if blk := cs[i]; blk != nil {
-					good := false
-					for _, in := range blk.Instrs {
-						if isErrorReturn(in) {
-							good = true
-						}
-					}
-					if !good {
-						o.Fail(waitSel.Pos(), "the Done() case of the blocking select does not return an error")
-					}
-				}
 			}
 		}
 		if !hasDone {
